@@ -13,6 +13,8 @@
     which is right only for valid polygons, whose holes lie inside the exterior).
   * Point receiver: `point_contains_point_iff`, `point_contains_rect_iff`,
     `point_contains_line_iff`, `point_contains_poly_iff`.
+  * Line receiver, the one exact case: `line_contains_point_iff` (un-indexed),
+    `line_contains_point_spec` (= `Spec.covers`, for every vertex sequence).
   * Defect witnesses `D4_wrong_true`, `D4_wrong_false`, `D5_wrong_true`, `D5_wrong_false`,
     `D13_wrong_true`: concrete VALID inputs (validity is part of each statement) on which the
     model — which equals the Go code by differential testing — contradicts the exact
@@ -30,70 +32,6 @@ namespace Geo
 open GL
 
 /-! ## termination of the `Line.ContainsLine` walk (after the D3 fix) -/
-
-/-- steps the walk can still make in its current direction without advancing `i` -/
-def walkRank (n : Nat) (st : WalkSt) : Nat :=
-  if st.dir = -1 then st.segIdx else if st.dir = 1 then n - 1 - st.segIdx else n
-
-theorem walkStep_spec (line other : Line) (n : Nat) (st : WalkSt) (hs : st.segIdx < n) :
-    (∃ b, (walkStep line other n st).2 = some b) ∨
-    ((walkStep line other n st).2 = none ∧
-      (((walkStep line other n st).1.i = st.i + 1 ∧ (walkStep line other n st).1.dir = 0 ∧
-          (walkStep line other n st).1.segIdx = st.segIdx) ∨
-       ((walkStep line other n st).1.i = st.i ∧ (walkStep line other n st).1.segIdx < n ∧
-          walkRank n (walkStep line other n st).1 < walkRank n st))) := by
-  unfold walkStep
-  simp only
-  split_ifs with h1 h2 h3 h4 h5
-  · exact Or.inr ⟨rfl, Or.inl ⟨rfl, rfl, rfl⟩⟩
-  · exact Or.inl ⟨_, rfl⟩
-  · refine Or.inr ⟨rfl, Or.inr ⟨rfl, ?_, ?_⟩⟩
-    · simp only; omega
-    · simp only [Bool.or_eq_true, beq_iff_eq, not_or] at h3
-      unfold walkRank
-      simp only [if_true]
-      split_ifs <;> omega
-  · exact Or.inl ⟨_, rfl⟩
-  · simp only [Bool.or_eq_true, beq_iff_eq, not_or] at h5
-    refine Or.inr ⟨rfl, Or.inr ⟨rfl, ?_, ?_⟩⟩
-    · simp only; omega
-    · unfold walkRank
-      simp only [show ((1 : Int) = -1) = False from eq_false (by decide), if_false, if_true]
-      split_ifs <;> omega
-  · exact Or.inr ⟨rfl, Or.inl ⟨rfl, rfl, rfl⟩⟩
-
-theorem walk_isSome (line other : Line) (n m : Nat) :
-    ∀ (fuel k : Nat) (st : WalkSt), st.segIdx < n → m ≤ st.i + k →
-      k * (n + 1) + walkRank n st + 1 ≤ fuel → (walk line other n m fuel st).isSome = true := by
-  intro fuel
-  induction fuel with
-  | zero => intro k st _ _ h; omega
-  | succ fuel ih =>
-    intro k st hs hk hf
-    rw [walk]
-    split_ifs with hi
-    · rcases walkStep_spec line other n st hs with ⟨b, hb⟩ | ⟨hnone, hcase⟩
-      · rcases hw : walkStep line other n st with ⟨st', r⟩
-        rw [hw] at hb
-        simp only at hb
-        subst hb
-        rfl
-      · rcases hw : walkStep line other n st with ⟨st', r⟩
-        rw [hw] at hnone hcase
-        simp only at hnone hcase
-        subst hnone
-        simp only
-        rcases hcase with ⟨e1, e2, e3⟩ | ⟨e1, e2, e3⟩
-        · obtain ⟨k', rfl⟩ : ∃ k', k = k' + 1 := ⟨k - 1, by omega⟩
-          apply ih k' st' (by omega) (by omega)
-          have hr : walkRank n st' = n := by
-            unfold walkRank; rw [e2]; simp
-          rw [hr]
-          rw [Nat.succ_mul] at hf
-          omega
-        · apply ih k st' e2 (by omega)
-          omega
-    · rfl
 
 theorem line_walk_terminates (line other : Line) : (line.containsLineO other).isSome = true := by
   unfold Line.containsLineO
@@ -327,6 +265,35 @@ theorem point_contains_poly_iff (p : Pt) (pts : Array Pt) (k : IndexKind) (m : N
   · rintro ⟨h, hq⟩
     exact ⟨⟨h, by omega⟩, (seriesRect_eq_ptbox_iff p pts true (by simp; omega)).2 hq⟩
 
+/-! ## Line receiver: the one exact case -/
+
+theorem line_contains_point_iff (l : Line) (hidx : l.index = none) (p : Pt) :
+    (Geom.line l).contains (.point p) = true ↔
+      ∃ i, i < l.numSegments ∧ OnSeg (l.segmentAt i).a (l.segmentAt i).b p :=
+  line_containsPoint_iff l hidx p
+
+/-- Line ∋ Point equals the exact specification, for every vertex sequence -/
+theorem line_contains_point_spec (pts : Array Pt) (p : Pt) :
+    (Geom.line (mkSeries pts false .none 0)).contains (.point p)
+      = Spec.covers (.line pts.toList) (.point p) := by
+  have hs : Spec.covers (.line pts.toList) (.point p) =
+      (decide (pts.toList.length ≥ 2) && true && Spec.onBoundary (Spec.edges pts.toList false) p) := rfl
+  rw [hs, Bool.eq_iff_iff]
+  show Line.containsPoint (mkSeries pts false .none 0) p = true ↔ _
+  rw [line_containsPoint_iff _ (mkSeries_plain pts false 0).1]
+  simp only [Bool.and_true, Bool.and_eq_true, decide_eq_true_eq, Spec.onBoundary, List.any_eq_true]
+  constructor
+  · rintro ⟨i, hi, hon⟩
+    have hi' : i < numSegmentsOf pts false := hi
+    refine ⟨?_, _, segmentAt_mem_edges pts false i hi', (spec_onSeg_iff _ _ _).2 hon⟩
+    by_contra hlt
+    have : numSegmentsOf pts false = 0 := (numSegmentsOf_eq_zero_iff pts false).2 (by
+      simp only [Array.length_toList, ge_iff_le, not_le] at hlt
+      simp [hlt])
+    omega
+  · rintro ⟨-, e, he, hon⟩
+    obtain ⟨i, hi, rfl⟩ := edges_mem_segmentAt pts false e he
+    exact ⟨i, hi, (spec_onSeg_iff _ _ _).1 hon⟩
 /-! ## defect witnesses: model (= code) against the exact specification `Spec.covers` -/
 
 theorem D4_wrong_true :
@@ -392,6 +359,8 @@ end Geo
 #print axioms Geo.seriesRect_eq_ptbox_iff
 #print axioms Geo.point_contains_line_iff
 #print axioms Geo.point_contains_poly_iff
+#print axioms Geo.line_contains_point_iff
+#print axioms Geo.line_contains_point_spec
 #print axioms Geo.D4_wrong_true
 #print axioms Geo.D4_wrong_false
 #print axioms Geo.D5_wrong_true
